@@ -335,6 +335,14 @@ def linesOk (col : List Sym) (r : Nat) (s : Sym) : Bool :=
     | some t => Sym.partnerOk kind (col.getD t .empty)
     | none => false
 
+/-- As `linesOk`, but a control line may also end on one of the rows `idle` (bare wires that are
+identity gates of the circuit: the identity's drawing IS the wire). -/
+def linesOkIdle (idle : List Nat) (col : List Sym) (r : Nat) (s : Sym) : Bool :=
+  s.lines.all fun (k, kind) =>
+    match target col.length r k with
+    | some t => Sym.partnerOk kind (col.getD t .empty) || (kind != 1 && idle.contains t)
+    | none => false
+
 /-- Multi-row symbols: a `\multigate{k}` sits on `k` ghosts with its label; `\barrier{k}`, `\cds{k}`
 stay inside the quantum rows; a ghost lies under a multigate with its label. -/
 def extentOk (nq : Nat) (col : List Sym) (r : Nat) (s : Sym) : Bool :=
@@ -390,6 +398,7 @@ inductive MarkKind where
   | reset
   | barrier (k : Nat)
   | cds (k : Nat)
+  | idle                      -- identity gate: its drawing is the bare wire
   deriving DecidableEq, Repr
 
 structure Mark where
@@ -414,6 +423,7 @@ def accepts : MarkKind → Sym → Bool
   | .reset, .reset => true
   | .barrier k, .barrier k' => k = k'
   | .cds k, .cds k' "\\cdots" => k = k'
+  | .idle, .qw => true
   | _, _ => false
 
 /-- A unit of drawing that must sit in ONE column: the marks, further wires it covers (barrier),
@@ -436,7 +446,7 @@ def single : Gate → List Nat → Option (List Mark)
   | .box l _, bits => some (bits.map fun b => ⟨b, .block l⟩)
   | .x, bits => some (bits.map fun b => ⟨b, .xgate⟩)
   | .z, bits => some (bits.map fun b => ⟨b, .zgate⟩)
-  | .i, _ => some []
+  | .i, bits => some (bits.map fun b => ⟨b, .idle⟩)
   | .swap, bits => some (bits.map fun b => ⟨b, .swapX⟩)
   | .c g, bits =>
     match bits with
@@ -483,7 +493,7 @@ def items : Gate → List Nat → List Mark → List Item
           items body bits ctx ++ [.loopEnd]
   | g, bits, ctx =>
     match single g bits with
-    | some m => if m.isEmpty && ctx.isEmpty then [] else [.stage (m ++ ctx) [] true]
+    | some m => if (m.all fun x => x.kind = .idle) && ctx.isEmpty then [] else [.stage (m ++ ctx) [] true]
     | none => []
 def subItems : Subs → List Nat → List Mark → List Item
   | .nil, _, _ => []
@@ -541,6 +551,7 @@ structure MState where
   seq : Nat                           -- stage counter
   done : List (Brace × Nat × Nat)     -- matched braces with the stage numbers [from, to) of their loop
   failed : List (Nat × List Mark) := [] -- lenient mode only: stages that did not match
+  idle : List (Nat × Nat) := []       -- (column, wire) of the bare wires that are identity gates
 
 def findCol (g : Grid) (w : Nat) (from_ : Nat) : Option Nat :=
   ((List.range (g.width - from_)).map (from_ + ·)).find? fun c => !(g.cell w c).isWire
@@ -582,7 +593,7 @@ def matchItem (g : Grid) (opIdx : Nat) (st : MState) : Item → Except Fail MSta
         | some b => .ok { st with loops := rest, braces := st.braces.erase b, done := (b, seq0, st.seq) :: st.done }
         | none => .error ⟨"loop-brace", some opIdx, s!"no brace {count}x over columns {f}..{l}"⟩
   | .stage marks covers connected =>
-    match marks with
+    match marks.filter fun m => m.kind ≠ .idle with
     | [] => .ok st
     | m0 :: _ =>
       match findCol g m0.wire (st.next.getD m0.wire 0) with
@@ -590,7 +601,7 @@ def matchItem (g : Grid) (opIdx : Nat) (st : MState) : Item → Except Fail MSta
       | some c =>
         let late := (marks.map (·.wire) ++ covers).find? fun w => st.next.getD w 0 > c
         let wrong := marks.find? fun m => !(accepts m.kind (g.cell m.wire c))
-        let skipped := marks.find? fun m =>
+        let skipped := (marks.filter fun m => m.kind ≠ .idle).find? fun m =>
           ((List.range (c - st.next.getD m.wire 0)).map (st.next.getD m.wire 0 + ·)).any fun c' => !(g.cell m.wire c').isWire
         match late, wrong, skipped with
         | some w, _, _ => .error ⟨"order", some opIdx, s!"column {c} on wire {w} is not after the previous operation on that wire"⟩
@@ -602,7 +613,8 @@ def matchItem (g : Grid) (opIdx : Nat) (st : MState) : Item → Except Fail MSta
           else
             .ok { st with
               next := setNext st.next (marks.map (·.wire) ++ covers) (c + 1),
-              claimed := st.claimed + marks.length,
+              claimed := st.claimed + (marks.filter fun m => m.kind ≠ .idle).length,
+              idle := ((marks.filter fun m => m.kind = .idle).map fun m => (c, m.wire)) ++ st.idle,
               loops := st.loops.map fun (cnt, s0, span) =>
                 (cnt, s0, some (match span with | none => (c, c) | some (f, _) => (f, c))),
               cells := marks.map (fun m => (c, m.wire, opIdx, st.seq)) ++ st.cells,
@@ -633,7 +645,7 @@ def symbolCount (g : Grid) : Nat := (g.map fun row => (row.filter fun s => !s.is
 /-- Every operation appears exactly once, as one connected column group, in program order on every
 wire it touches; nothing else is drawn; loop braces match the loops. -/
 def opsDepicted (c : Circ) (d : Doc) (g : Grid) : Except Fail MState :=
-  (matchOps c.nq g c.ops 0 ⟨List.replicate (c.nq + c.nc) 0, 0, [], d.braces, [], 0, [], []⟩).bind fun st =>
+  (matchOps c.nq g c.ops 0 ⟨List.replicate (c.nq + c.nc) 0, 0, [], d.braces, [], 0, [], [], []⟩).bind fun st =>
     if st.claimed ≠ symbolCount g then
       .error ⟨"extra", none, s!"{symbolCount g} symbols drawn, {st.claimed} belong to operations"⟩
     else if !st.braces.isEmpty then .error ⟨"loop-brace", none, "brace without loop"⟩
@@ -673,7 +685,7 @@ def check (c : Circ) (d : Doc) : Except Fail MState :=
   else
     -- the matching is run leniently first, only to attribute a structural failure to an operation
     let owner (col row : Nat) : Option Nat :=
-      let ms := matchLenient c.nq g c.ops 0 ⟨List.replicate (c.nq + c.nc) 0, 0, [], d.braces, [], 0, [], []⟩
+      let ms := matchLenient c.nq g c.ops 0 ⟨List.replicate (c.nq + c.nc) 0, 0, [], d.braces, [], 0, [], [], []⟩
       match (ms.cells.find? fun (c', w, _, _) => c' = col && w = row).map fun (_, _, k, _) => k with
       | some k => some k
       | none =>
@@ -684,14 +696,16 @@ def check (c : Circ) (d : Doc) : Except Fail MState :=
         | none => match opsDepicted c d g with
           | .error f => f.op
           | .ok _ => none
-    let bad (p : List Sym → Nat → Sym → Bool) : Option (Nat × Nat) :=
+    let bad (p : Nat → List Sym → Nat → Sym → Bool) : Option (Nat × Nat) :=
       (List.range g.width).findSome? fun col =>
-        ((g.col col).zipIdx.find? fun (s, r) => !(p (g.col col) r s)).map fun (_, r) => (col, r)
-    match bad fun col r s => linesOk col r s && extentOk c.nq col r s with
+        ((g.col col).zipIdx.find? fun (s, r) => !(p col (g.col col) r s)).map fun (_, r) => (col, r)
+    -- a line may also end on the bare wire that is the drawing of an identity gate of the circuit
+    let idle := (matchLenient c.nq g c.ops 0 ⟨List.replicate (c.nq + c.nc) 0, 0, [], d.braces, [], 0, [], [], []⟩).idle
+    match bad fun ci col r s => linesOkIdle ((idle.filter (·.1 = ci)).map (·.2)) col r s && extentOk c.nq col r s with
     | some (col, r) => .error ⟨"connector", owner col r,
         s!"column {col} row {r}: {repr (g.cell r col)} leaves the grid or ends on no partner symbol"⟩
     | none =>
-      match bad spanClearAt with
+      match bad fun _ => spanClearAt with
       | some (col, r) => .error ⟨"span", owner col r,
           s!"column {col} row {r}: a symbol lies under {repr (g.cell r col)}"⟩
       | none => opsDepicted c d g
